@@ -253,7 +253,7 @@ fn generate(seed: u64, n: usize, tier: &str, out: &mut impl Write) {
     let mut rng = SplitMix64(seed ^ 0xC39);
     for _ in 0..n {
         let t = match rng.below(10) { 0 => rng.below(2) as usize, _ => 1 + rng.below(5) as usize };
-        let l = 1 + rng.below(4) as usize;
+        let l = match rng.below(12) { 0 => 1, _ => 2 + rng.below(3) as usize };
         let den = rng.pick(&[16u32, 16, 16, 8, 4, 32]);
         let whole_uniform = rng.chance(1, 10);
         let rows: Vec<Vec<u32>> = (0..t)
